@@ -657,6 +657,41 @@ func (lib *SpecLib) MergeTrusted() {
 	}
 }
 
+// LintGhostFrames: an ensures clause that relates a ghost to its old value describes a change of that ghost; the
+// contract must then list the ghost in modifies (or sets), otherwise the assumed clause would contradict the frame
+// and make every path after the call vacuously infeasible.
+func (lib *SpecLib) LintGhostFrames() []string {
+	var errs []string
+	for _, key := range sortedKeys(lib.Contracts) {
+		c := lib.Contracts[key]
+		mod := map[string]bool{}
+		for _, cl := range c.Clauses {
+			switch cl.Kind {
+			case "modifies", "havoc":
+				for _, n := range cl.Names {
+					mod[n] = true
+				}
+			case "sets":
+				mod[cl.LHS.Fun] = true
+			}
+		}
+		for _, cl := range c.Clauses {
+			if cl.Kind != "ensures" || !strings.Contains(cl.Text, "old(") {
+				continue
+			}
+			for g := range lib.Ghosts {
+				if mod[g] {
+					continue
+				}
+				if regexp.MustCompile(`old\([^)]*\b` + regexp.QuoteMeta(g) + `\b`).MatchString(cl.Text) {
+					errs = append(errs, fmt.Sprintf("%s:%d: ensures of %s relates ghost %s to its old value but the contract does not list it in modifies", cl.File, cl.Line, shortKey(key), g))
+				}
+			}
+		}
+	}
+	return errs
+}
+
 // LoadAllSpecs loads /verif/specs/*.spec
 func (lib *SpecLib) LoadAllSpecs(dir string) error {
 	files, _ := filepath.Glob(filepath.Join(dir, "*.spec"))
